@@ -148,9 +148,11 @@ def c01(ck):
     svc = DEFAULT_SVC
     quick = ck.quick
     small = ["getinfo", "ok", "stream", "unknown_iface", "nodot", "badparam", "fail", "silent"]
-    seqs = gen_sequences(rng, ck.tier, list(kinds().keys()), FLAGS, 1, 0, 0)
+    # "upgflag": the request carries upgrade:true but the method does not upgrade - the connection stays a varlink connection
+    c01_flags = dict(FLAGS, upgflag={"upgrade": True})
+    seqs = gen_sequences(rng, ck.tier, list(kinds().keys()), c01_flags, 1, 0, 0)
     seqs += gen_sequences(rng, ck.tier, CORE_KINDS, FLAGS, 2, 0, 0)
-    seqs += gen_sequences(rng, ck.tier, small, FLAGS, 2 if quick else 3, 600 if quick else 6000, 40)
+    seqs += gen_sequences(rng, ck.tier, small, c01_flags, 2 if quick else 3, 600 if quick else 6000, 40)
     lines, meta = [], {}
     for n, seq in enumerate(seqs):
         if any(k == "upgrade" for k, _ in seq):
@@ -376,6 +378,14 @@ def streams_for_c02(rng, quick):
         out.append(("big%d" % i, svc, stream_of([make("ok", "-", 1), big, make("getinfo", "-", 2)])))
         if i % 2 == 0:
             out.append(("bigupg%d" % i, svc, stream_of([make("upgrade", "-", 1)]) + b"P" * size + b"\0tail"))
+    # a message whose terminating NUL is exactly the last byte of a block of handle()'s internal buffer (8192, 16384),
+    # with more requests behind it
+    for k in (1, 2):
+        base = len(enc(make("ok", "-", {"pad": ""})))
+        first = make("ok", "-", {"pad": "x" * (8192 * k - base)})
+        assert len(enc(first)) == 8192 * k
+        out.append(("edge%d" % k, svc, stream_of([first, make("getinfo", "-", 1), make("ok", "-", 2)])))
+        out.append(("edgeupg%d" % k, svc, stream_of([first, make("upgrade", "-", 1)]) + b"payload right behind\0the upgrade"))
     return out
 
 
@@ -678,9 +688,11 @@ def c03(ck):
             continue
         firsts = ["nodot", "", ".", names[0], names[0] + ".Nope", "no.such.Run", "org.varlink.service.GetInfo", "org.varlink.service.Nope",
                   "." + names[0] + ".Run", names[0] + "..Run", names[-1] + ".Run"]
-        for fi, fm in enumerate(firsts):
+        firsts = [(fm, {}) for fm in firsts] + [(names[0] + ".Run", {"upgrade": True}), (names[-1] + ".Run", {"upgrade": True, "more": True}),
+                                                ("no.such.Run", {"upgrade": True}), ("org.varlink.service.GetInfo", {"upgrade": True})]
+        for fi, (fm, ffl) in enumerate(firsts):
             tgt = names[(si + fi) % len(names)]
-            r1 = req(fm, {"script": ["w"], "tag": "first"})
+            r1 = req(fm, {"script": ["w"], "tag": "first"}, **ffl)
             r2 = req(tgt + ".Run", {"script": ["w"], "tag": {"second": fi}})
             cid = "p%d_%d" % (si, fi)
             m2[cid] = (svc, r1, r2, tgt)
@@ -882,6 +894,18 @@ def c06(ck):
         closed = False
         for fr in frs:
             v = impl[frame_ids[fr]]
+            # independent of the implementation's own decoder: a JSON value that is not an object with a string
+            # `method` member (and boolean-or-null flags) is not a request
+            if v.startswith("ok"):
+                try:
+                    jv = json.loads(fr.decode("utf-8"))
+                    definite = (not isinstance(jv, dict)) or not isinstance(jv.get("method"), str) or any(
+                        k in jv and jv[k] is not None and not isinstance(jv[k], bool) for k in ("more", "oneway", "upgrade"))
+                except Exception:
+                    definite = False
+                if definite and not isinstance(jv, list):
+                    ck.failures.append({"what": "a message that is not a request (no string `method` member / ill-typed flag) was decoded as one",
+                                        "frame": fr.decode("utf-8", "replace")[:300]})
             if v.startswith("PANIC"):
                 ck.failures.append({"what": "request decoder panicked", "frame_hex": fr.hex()[:400]})
                 bad = True
